@@ -12,3 +12,10 @@ func verifYield(point string) {
 		f(point)
 	}
 }
+
+// VerifElapseRefreshInterval makes the cache behave as if its refresh interval
+// had just elapsed (what the refresh timer does when it fires), so that a
+// harness can place the automatic refresh at a chosen point of a history.
+func (pc *ProviderCache) VerifElapseRefreshInterval() {
+	pc.needsRefresh.Store(true)
+}
